@@ -1,4 +1,5 @@
 import CollectionsC.Model.Chain
+import CollectionsC.Spec.LSeq
 /-! Concrete model of `src/cc_slist.c` (singly linked list) on the `Chain` state of
 `Model/Chain.lean`: the same branches and the same assignments to `size`/`head`/`tail`, one
 `m.alloc` per `mem_alloc`/`mem_calloc`, one `m.free` per `mem_free`, a `m.check` where a node pointer
@@ -448,5 +449,47 @@ def zipReplace (l1 l2 : Chain) (z : ZipIter) (x1 x2 : Nat) (m : Mem) : Stat × O
 
 /-- `cc_slist_zip_iter_index` -/
 def zipIndex (z : ZipIter) : Nat := wdec z.index
+
+end CC.SList
+
+namespace CC.SList
+open CC.Spec.LSeq (Op Out Params)
+
+/-- one history step on the pair (destination, source); `to_array` hands its block to the caller,
+who releases it at once (as the harness does) -/
+def step (P : Params) (s : Chain × Chain) (op : Op) (m : Mem) : Out × (Chain × Chain) × Mem :=
+  match op with
+  | .addFirst x => let r := addFirst s.1 x m; ({ st := some r.1 }, (r.2.1, s.2), r.2.2)
+  | .addLast x => let r := addLast s.1 x m; ({ st := some r.1 }, (r.2.1, s.2), r.2.2)
+  | .addAt x i => let r := addAt s.1 x i m; ({ st := some r.1 }, (r.2.1, s.2), r.2.2)
+  | .addAll => let r := addAll s.1 s.2 m; ({ st := some r.1 }, (r.2.1, s.2), r.2.2)
+  | .addAllAt i => let r := addAllAt s.1 s.2 i m; ({ st := some r.1 }, (r.2.1, s.2), r.2.2)
+  | .splice => let r := splice s.1 s.2 m; ({ st := some r.1 }, (r.2.1, r.2.2.1), r.2.2.2)
+  | .spliceAt i => let r := spliceAt s.1 s.2 i m; ({ st := some r.1 }, (r.2.1, r.2.2.1), r.2.2.2)
+  | .remove x => let r := remove s.1 x m; ({ st := some r.1, val := r.2.1 }, (r.2.2.1, s.2), r.2.2.2)
+  | .removeAt i => let r := removeAt s.1 i m; ({ st := some r.1, val := r.2.1 }, (r.2.2.1, s.2), r.2.2.2)
+  | .removeFirst => let r := removeFirst s.1 m; ({ st := some r.1, val := r.2.1 }, (r.2.2.1, s.2), r.2.2.2)
+  | .removeLast => let r := removeLast s.1 m; ({ st := some r.1, val := r.2.1 }, (r.2.2.1, s.2), r.2.2.2)
+  | .removeAll => let r := removeAll s.1 m; ({ st := some r.1, vals := r.2.1 }, (r.2.2.1, s.2), r.2.2.2)
+  | .replaceAt x i => let r := replaceAt s.1 x i m; ({ st := some r.1, val := r.2.1 }, (r.2.2.1, s.2), r.2.2.2)
+  | .reverse => ({}, (reverse s.1, s.2), m)
+  | .filterMut => let r := filterMut P.pred s.1 m; ({ st := some r.1 }, (r.2.1, s.2), r.2.2)
+  | .getFirst => let r := getFirst s.1 m; ({ st := some r.1, val := r.2.1 }, s, r.2.2)
+  | .getLast => let r := getLast s.1 m; ({ st := some r.1, val := r.2.1 }, s, r.2.2)
+  | .getAt i => let r := getAt s.1 i m; ({ st := some r.1, val := r.2.1 }, s, r.2.2)
+  | .indexOf x => let r := indexOf s.1 x; ({ st := some r.1, val := r.2 }, s, m)
+  | .contains x => ({ val := some (contains s.1 x) }, s, m)
+  | .containsValue x => ({ val := some (containsValue P.cmp s.1 x) }, s, m)
+  | .size => ({ val := some s.1.size }, s, m)
+  | .toArray =>
+    let r := toArray s.1 m
+    ({ st := some r.1, vals := r.2.1.getD [] }, s, if r.1 = .ok then r.2.2.free else r.2.2)
+  | .foreach => ({ vals := foreach s.1 }, s, m)
+  | .swapRoles => ({}, (s.2, s.1), m)
+
+def run (P : Params) (s : Chain × Chain) (ops : List Op) (m : Mem) : List Out × (Chain × Chain) × Mem :=
+  match ops with
+  | [] => ([], s, m)
+  | op :: ops => let r := step P s op m; let rs := run P r.2.1 ops r.2.2; (r.1 :: rs.1, rs.2.1, rs.2.2)
 
 end CC.SList
